@@ -539,7 +539,7 @@ static void run_trial(Ctx &cx, const c17::Ov &ov, uint64_t tseed, vf::Report &re
     // (5) very large strides / index values (beyond 2^31 bytes and beyond 2^32 bytes between lanes): every strided or indexed memory
     //     operand is moved into a sparse mapping (pages are committed only where a designated element lies); values only
 #if !defined(__SANITIZE_ADDRESS__)
-    if (!t.alias && !reported_value && (tseed & 7) == 2 && (t.c.sh == c17::STRIDE || t.c.sh == c17::INDEX || t.a.sh == c17::STRIDE || t.a.sh == c17::INDEX || t.b.sh == c17::STRIDE || t.b.sh == c17::INDEX))
+    if (!t.alias && !reported_value && (tseed & 7) == 2 && st.huge_calls < 400 && (t.c.sh == c17::STRIDE || t.c.sh == c17::INDEX || t.a.sh == c17::STRIDE || t.a.sh == c17::INDEX || t.b.sh == c17::STRIDE || t.b.sh == c17::INDEX))
     {
         static const uint64_t HUGE[] = {(1ULL << 28) + 1, (1ULL << 28) + 3, 306783379ULL, (1ULL << 29) - 1, (1ULL << 29) + 5, 613566757ULL, (1ULL << 30) + 7};
         c17::Call x;
